@@ -263,6 +263,24 @@ class Check:
     def inconclusive_because(self, reason):
         self.inconclusive.append(reason)
 
+    def absorb(self, p):
+        """Merge the partial result of a monitored sub-run (e.g. the repository's tests under the pytest plugin)."""
+        self.evaluations += p["evaluations"]
+        for k, v in p["regimes"].items():
+            self.regimes[k] = self.regimes.get(k, 0) + v
+        for k, v in p["monitors"].items():
+            m = self.monitors.setdefault(k, {"calls": 0, "max_ratio": 0.0})
+            m["calls"] += v["calls"]
+            m["max_ratio"] = max(m["max_ratio"], v["max_ratio"])
+        self.digests.update(p["digests"])
+        self.violations.extend(p["violations"])
+        self.n_violations += p["n_violations"]
+        for k, v in p["notes"].items():
+            if isinstance(v, (int, float)) and isinstance(self.notes.get(k, 0), (int, float)):
+                self.notes[k] = self.notes.get(k, 0) + v
+            else:
+                self.notes.setdefault(k, v)
+
     # ------------------------------------------------------------------ partial results
     def to_partial(self):
         return {"evaluations": self.evaluations, "regimes": self.regimes,
